@@ -382,3 +382,24 @@ m('C19-r2', 'C19', OR + 'config.rs', """    let node_count = peers.len() + 1;
     let recommended_min_quorum = node_count / 2 + 1;""", """    let node_count = 1 + peers.len();
 
     let recommended_min_quorum = node_count / 2 + 1;""", None)
+m('C04-m6', 'C04', W + 'store.rs', """        traversed_path.push(id);
+
+        if let Some(child) = node.get_child_mut(id) {""", """        if let Some(child) = node.get_child_mut(id) {""", 'C04.g')
+m('C04-m7', 'C04', W + 'store.rs', """                        tail,
+                        subscribers,
+                        ls_subscribers,
+                    )?;
+                }
+            }
+            KeySegment::Regular(head) => {""", """                        tail,
+                        subscribers,
+                        ls_subscribers,
+                    )
+                    .ok();
+                }
+            }
+            KeySegment::Regular(head) => {""", 'C04.g')
+m('C06-m4', 'C06', W + 'store.rs', 'self.candidates.iter_mut().find(|(id, _)| id == &client_id)', 'self.candidates.iter_mut().find(|(id, _)| id != &client_id)', 'C06.b')
+m('C02-m5', 'C02', W + 'store.rs', """                // cas value present, we can insert new cas value if insertion is forced
+                (true, current != &val, ValueEntry::Cas(val, v + 1))""", """                // cas value present, we can insert new cas value if insertion is forced
+                (false, current != &val, ValueEntry::Cas(val, v + 1))""", 'C02.a')
